@@ -19,7 +19,8 @@ map, so `dispatch` is written in *local form*: `tgt c` is the entry the verb
 addresses, `loc env c v` transcribes — branch for branch, in source order —
 what the verb does to that entry (`none` = absent) and whether it returns
 `Ok`. Validation that the code runs before the lookup is the first branch of
-`loc`. Writing back `put s t (loc ..)` is the `BTreeMap`/`HashMap` update.
+`loc` (since the `fix:` commits 7c0648d, b8a38d3, 25f3a45, 53f0369 every verb validates before
+its first write). Writing back `put s t (loc ..)` is the `BTreeMap`/`HashMap` update.
 
 Tokens. Strings are `Nat` tokens (the harness maps them to fixed-width strings
 so `Nat` order = string order). A socket address in a request is a raw `Nat`;
@@ -391,29 +392,31 @@ def patchShared (p : HttpPatch) (l : HttpL) : HttpL :=
            ft := orOld p.ft l.ft, bt := orOld p.bt l.bt, ct := orOld p.ct l.ct, rt := orOld p.rt l.rt,
            answers := mergeAnswers l.answers p.answers }
 
-/-- the tail of both patches: h2 knobs, then `sozu_id_header` (validated here, after the writes) -/
-def patchTail (p : HttpPatch) (l : HttpL) : HttpL × Bool :=
-  let l := { l with knobs := mergeKnobs p.knobs l.knobs }
+/-- `sozu_id_header` of a patch is absent or valid (`validate_sozu_id_header`) -/
+def patchSidValid (p : HttpPatch) : Bool :=
   match p.sid with
-  | none => (l, true)
-  | some h => if sidValid h then ({ l with sid := some h }, true) else (l, false)
+  | none => true
+  | some h => sidValid h
 
-/-- body of `update_http_listener` after the lookup -/
-def applyHttpPatch (p : HttpPatch) (l : HttpL) : HttpL × Bool :=
+/-- `alpn_protocols` of a patch is absent or valid (`validate_alpn_protocols`) -/
+def patchAlpnValid (p : HttpPatch) : Bool :=
+  match p.alpn with
+  | none => true
+  | some vs => alpnValid vs
+
+/-- the tail of both patches: h2 knobs, then `sozu_id_header` (already validated) -/
+def patchTail (p : HttpPatch) (l : HttpL) : HttpL :=
+  { l with knobs := mergeKnobs p.knobs l.knobs, sid := orOldOpt p.sid l.sid }
+
+/-- body of `update_http_listener` after validation and lookup -/
+def applyHttpPatch (p : HttpPatch) (l : HttpL) : HttpL :=
   patchTail p (patchShared p l)
 
-/-- body of `update_https_listener` after the lookup -/
-def applyHttpsPatch (p : HttpPatch) (l : HttpL) : HttpL × Bool :=
+/-- body of `update_https_listener` after validation and lookup -/
+def applyHttpsPatch (p : HttpPatch) (l : HttpL) : HttpL :=
   let l := patchShared p l
-  match p.alpn with
-  | some vs =>
-    if alpnValid vs then
-      patchTail p { l with alpn := vs, strictSni := orOldOpt p.strictSni l.strictSni,
-                           disableH11 := orOldOpt p.disableH11 l.disableH11 }
-    else (l, false)
-  | none =>
-    patchTail p { l with strictSni := orOldOpt p.strictSni l.strictSni,
-                         disableH11 := orOldOpt p.disableH11 l.disableH11 }
+  patchTail p { l with alpn := orOld p.alpn l.alpn, strictSni := orOldOpt p.strictSni l.strictSni,
+                       disableH11 := orOldOpt p.disableH11 l.disableH11 }
 
 def applyTcpPatch (p : TcpPatch) (l : TcpL) : TcpL :=
   { l with pub := orOldOpt p.pub l.pub, expectProxy := orOld p.expectProxy l.expectProxy,
@@ -554,10 +557,10 @@ def loc (env : Env) (c : Cmd) (v : Option Val) : Option Val × Bool :=
     match env.fp cert.pem with
     | none => (v, false)
     | some fp =>
-      let m := certsOf v                                   -- `entry(address).or_default()`
-      match resolveNames env cert with
-      | none => (some (.certs m), false)                   -- error after the bucket exists
+      match resolveNames env cert with                      -- before the bucket is created
+      | none => (v, false)
       | some cert' =>
+        let m := certsOf v                                 -- `entry(address).or_default()`
         if (certGet m fp).isSome then (some (.certs m), true)
         else (some (.certs (certSet m fp cert')), true)
   | .removeCert _ fp =>
@@ -568,16 +571,18 @@ def loc (env : Env) (c : Cmd) (v : Option Val) : Option Val × Bool :=
       | some (.certs m) => (some (.certs (certErase m fp)), true)
       | _ => (v, true)
   | .replaceCert _ old cert =>
-    match old with
+    match resolveNames env cert with                        -- names resolved first
     | none => (v, false)
-    | some old =>
-      match v with
-      | some (.certs m) =>
-        let m1 := certErase m old                          -- removed first
-        match env.fp cert.pem with
-        | none => (some (.certs m1), false)                -- error after the removal
-        | some nfp => (some (.certs (certSet m1 nfp cert)), true)
-      | _ => (v, false)
+    | some cert' =>
+      match old with
+      | none => (v, false)
+      | some old =>
+        match v with
+        | some (.certs m) =>
+          match env.fp cert.pem with                        -- fingerprint before the removal
+          | none => (v, false)
+          | some nfp => (some (.certs (certSet (certErase m old) nfp cert')), true)
+        | _ => (v, false)
   | .addTcpF f => addTcpFront f v
   | .removeTcpF f => removeTcpFront f v
   | .addUdpF f => addTcpFront f v
@@ -593,14 +598,14 @@ def loc (env : Env) (c : Cmd) (v : Option Val) : Option Val × Bool :=
       (some (.backends l'), l'.length ≠ l.length)
     | _ => (v, false)
   | .updHttpL p =>
-    if !knobsValid Consts.stateShrinkRatioMinHttp p.knobs then (v, false) else
+    if !knobsValid Consts.stateShrinkRatioMinHttp p.knobs || !patchSidValid p then (v, false) else
     match v with
-    | some (.hl l) => let r := applyHttpPatch p l; (some (.hl r.1), r.2)
+    | some (.hl l) => (some (.hl (applyHttpPatch p l)), true)
     | _ => (v, false)
   | .updHttpsL p =>
-    if !knobsValid Consts.stateShrinkRatioMinHttps p.knobs then (v, false) else
+    if !knobsValid Consts.stateShrinkRatioMinHttps p.knobs || !patchAlpnValid p || !patchSidValid p then (v, false) else
     match v with
-    | some (.hl l) => let r := applyHttpsPatch p l; (some (.hl r.1), r.2)
+    | some (.hl l) => (some (.hl (applyHttpsPatch p l)), true)
     | _ => (v, false)
   | .updTcpL p =>
     match v with
